@@ -116,6 +116,17 @@ theorem save_plain {s : PState} (h : s.cur ≠ .Error) :
   have : (s.cur == TokenKind.Error) = false := by simpa using h
   rw [this]; rfl
 
+/-- all trees of the list are token leaves -/
+def allTok : List Tree → Bool
+  | [] => true
+  | .token _ _ :: ts => allTok ts
+  | .node _ _ :: _ => false
+
+theorem allTok_append (a b : List Tree) : allTok (a ++ b) = (allTok a && allTok b) := by
+  induction a with
+  | nil => simp [allTok]
+  | cons t ts ih => cases t <;> simp [allTok, ih]
+
 /-- the frame facts shared by `eat` and `skip` -/
 structure Keeps (s s' : PState) : Prop where
   errors : s'.errors = s.errors
@@ -123,15 +134,16 @@ structure Keeps (s s' : PState) : Prop where
   cps : s'.cps = s.cps
   locals : s'.locals = s.locals
   parents : s'.b.parents = s.b.parents
-  cur : ∃ new, s'.b.cur = new ++ s.b.cur
+  cur : ∃ new, s'.b.cur = new ++ s.b.cur ∧ allTok new = true
 
-theorem Keeps.refl (s : PState) : Keeps s s := ⟨rfl, rfl, rfl, rfl, rfl, ⟨[], rfl⟩⟩
+theorem Keeps.refl (s : PState) : Keeps s s := ⟨rfl, rfl, rfl, rfl, rfl, ⟨[], rfl, rfl⟩⟩
 
 theorem Keeps.trans {a b c : PState} (h1 : Keeps a b) (h2 : Keeps b c) : Keeps a c := by
-  obtain ⟨n1, e1⟩ := h1.cur
-  obtain ⟨n2, e2⟩ := h2.cur
+  obtain ⟨n1, e1, t1⟩ := h1.cur
+  obtain ⟨n2, e2, t2⟩ := h2.cur
   exact ⟨h2.errors.trans h1.errors, h2.flag.trans h1.flag, h2.cps.trans h1.cps,
-    h2.locals.trans h1.locals, h2.parents.trans h1.parents, ⟨n2 ++ n1, by rw [e2, e1, List.append_assoc]⟩⟩
+    h2.locals.trans h1.locals, h2.parents.trans h1.parents,
+    ⟨n2 ++ n1, by rw [e2, e1, List.append_assoc], by rw [allTok_append, t1, t2]; rfl⟩⟩
 
 /-- `save; lex` on a non-`Error`, non-`Eof` look-ahead -/
 theorem save_lex_props {s : PState} (hE : s.cur ≠ .Error) (hF : s.cur ≠ .Eof) :
@@ -146,7 +158,7 @@ theorem save_lex_props {s : PState} (hE : s.cur ≠ .Error) (hF : s.cur ≠ .Eof
       rw [this]; rfl
     rw [this]
     rfl
-  · exact ⟨rfl, rfl, rfl, rfl, rfl, ⟨[_], rfl⟩⟩
+  · exact ⟨rfl, rfl, rfl, rfl, rfl, ⟨[_], rfl, rfl⟩⟩
 
 theorem trivia_ne_error {k : TokenKind} (h : k.isTrivia = true) : k ≠ .Error ∧ k ≠ .Eof := by
   constructor <;> (intro hk; rw [hk] at h; exact absurd h (by decide))
